@@ -2,6 +2,7 @@ package main
 
 import (
 	"fmt"
+	"os"
 	"go/ast"
 	"go/constant"
 	"go/token"
@@ -67,6 +68,9 @@ func (fr *frame) evalClause(cl *Clause, blk *ssa.BasicBlock, st *State, extra ma
 	if len(v.L) != 1 {
 		panic(unsupported("clause is not boolean: " + cl.Text))
 	}
+	if os.Getenv("GOVC_DEBUG") != "" {
+		fmt.Fprintf(os.Stderr, "clause %s: %d bytes\n", cl.Label, len(v.L[0]))
+	}
 	return v.L[0]
 }
 
@@ -92,6 +96,12 @@ func (ce *cenv) lookupIdent(id *ast.Ident) (Val, bool) {
 		return boolVal("true"), true
 	case "false":
 		return boolVal("false"), true
+	}
+	if ce.fr != nil && ce.blk != nil {
+		// inside a loop invariant a reassigned parameter denotes its current (loop-carried) value
+		if v, ok := ce.fr.lookupPhi(name, ce.blk); ok {
+			return v, true
+		}
 	}
 	if v, ok := ce.vars[name]; ok {
 		return v, true
@@ -134,6 +144,25 @@ func (ce *cenv) objVal(pkg *ssa.Package, obj types.Object, at ast.Expr) (Val, bo
 			return Val{}, false
 		}
 		return Val{T: o.Type(), L: []string{"1"}, F: &FuncInfo{Fn: fn}}, true
+	}
+	return Val{}, false
+}
+
+// lookupPhi resolves a name to the loop-carried value (header phi) of an enclosing loop.
+func (fr *frame) lookupPhi(name string, blk *ssa.BasicBlock) (Val, bool) {
+	hs := fr.loops.loopsOf(blk)
+	for i := len(hs) - 1; i >= 0; i-- {
+		for _, ins := range hs[i].Instrs {
+			phi, ok := ins.(*ssa.Phi)
+			if !ok {
+				break
+			}
+			if phi.Comment == name {
+				if v, ok := fr.vals[phi]; ok {
+					return v, true
+				}
+			}
+		}
 	}
 	return Val{}, false
 }
@@ -738,12 +767,12 @@ func (ce *cenv) pseudo(name string, x *ast.CallExpr) (Val, bool) {
 		ex.nfresh++
 		lo := arg(1).L[0]
 		hi := arg(2).L[0]
+		rec := &qRecord{seen: map[string]bool{}}
+		ex.qrec[bv] = rec
 		body := ce.with(id.Name, intVal(bv)).eval(x.Args[3]).L[0]
+		delete(ex.qrec, bv)
 		rng := and(app("<=", lo, bv), app("<", bv, hi))
-		if name == "forall" {
-			return boolVal("(forall ((" + bv + " Int)) " + imp(rng, body) + ")"), true
-		}
-		return boolVal("(exists ((" + bv + " Int)) " + and(rng, body) + ")"), true
+		return boolVal(orientQuant(name, bv, rng, body, rec)), true
 	case "len":
 		v := arg(0)
 		switch t := v.T.Underlying().(type) {
@@ -897,3 +926,100 @@ func derefNamedPkg(t types.Type) *types.Package {
 
 var _ = constant.MakeBool
 var _ = strings.TrimSpace
+
+// replaceToken replaces whole-token occurrences of an SMT symbol.
+func replaceToken(s, tok, repl string) string {
+	var b strings.Builder
+	i := 0
+	for i < len(s) {
+		j := strings.Index(s[i:], tok)
+		if j < 0 {
+			b.WriteString(s[i:])
+			break
+		}
+		j += i
+		end := j + len(tok)
+		before := j == 0 || s[j-1] == ' ' || s[j-1] == '('
+		after := end == len(s) || s[end] == ' ' || s[end] == ')'
+		b.WriteString(s[i:j])
+		if before && after {
+			b.WriteString(repl)
+		} else {
+			b.WriteString(tok)
+		}
+		i = end
+	}
+	return b.String()
+}
+
+// findSelectPattern finds a term "(select (select H arr) k)" in body to use as the quantifier pattern.
+func findSelectPattern(body, arr, k string) string {
+	suffix := " " + arr + ") " + k + ")"
+	j := strings.Index(body, suffix)
+	if j < 0 {
+		return ""
+	}
+	// walk back to the matching "(select (select"
+	end := j + len(suffix)
+	d := 0
+	for i := end - 1; i >= 0; i-- {
+		switch body[i] {
+		case ')':
+			d++
+		case '(':
+			d--
+			if d == 0 {
+				t := body[i:end]
+				if strings.HasPrefix(t, "(select (select ") {
+					return t
+				}
+				return ""
+			}
+		}
+	}
+	return ""
+}
+
+// orientQuant builds a quantified formula over bv, re-expressed over the absolute element index of each slice
+// that the body indexes directly with bv, so that "(select row k)" can serve as an arithmetic-free pattern.
+func orientQuant(q, bv, rng, body string, rec *qRecord) string {
+	mk := func(r, b string) string {
+		if q == "forall" {
+			return imp(r, b)
+		}
+		return and(r, b)
+	}
+	plain := "(" + q + " ((" + bv + " Int)) " + mk(rng, body) + ")"
+	if rec == nil || len(rec.acc) == 0 {
+		return plain
+	}
+	var parts []string
+	for n, a := range rec.acc {
+		off := a[1]
+		if off == "0" {
+			pat := findSelectPattern(body, a[0], bv)
+			if pat == "" {
+				parts = append(parts, plain)
+			} else {
+				parts = append(parts, "("+q+" (("+bv+" Int)) (! "+mk(rng, body)+" :pattern ("+pat+")))")
+			}
+			continue
+		}
+		k := fmt.Sprintf("%s!k%d", bv, n)
+		idx := at(off, bv)
+		b2 := strings.ReplaceAll(body, idx, k)
+		shifted := app("-", k, off)
+		b2 = replaceToken(b2, bv, shifted)
+		r2 := replaceToken(rng, bv, shifted)
+		pat := findSelectPattern(b2, a[0], k)
+		if pat == "" {
+			parts = append(parts, "("+q+" (("+k+" Int)) "+mk(r2, b2)+")")
+		} else {
+			parts = append(parts, "("+q+" (("+k+" Int)) (! "+mk(r2, b2)+" :pattern ("+pat+")))")
+		}
+	}
+	if q == "forall" {
+		return and(parts...)
+	}
+	return parts[0]
+}
